@@ -357,6 +357,51 @@ fn framebuffer_in_mbi() -> Result<u64, String> {
     Ok(n)
 }
 
+/// The panic=abort build of the crates (the `abortprobe` binary, built by the
+/// check script) classifies conformant framebuffer tags - stand-alone and
+/// through the getter of a loaded boot information - and prints one line per
+/// case. Returns the number of compared lines, or a note when the probe is
+/// not available.
+fn abort_probe() -> Result<Result<u64, String>, String> {
+    let dir = std::env::var("VERIF_DIR").unwrap_or_else(|_| "/verif".into());
+    let bin = std::path::Path::new(&dir).join("abortprobe/target/release/mb2-abortprobe");
+    if !bin.exists() {
+        return Ok(Err("panic=abort probe not built (see out/abortprobe-build.log): that configuration was not examined in this run".into()));
+    }
+    let out = match std::process::Command::new(&bin).output() {
+        Ok(o) => o,
+        Err(e) => return Ok(Err(format!("panic=abort probe could not be started: {e}"))),
+    };
+    let text = String::from_utf8_lossy(&out.stdout).into_owned();
+    if !out.status.success() {
+        let last = text.lines().last().unwrap_or("(no output)");
+        return Err(format!("built with panic=abort, classifying conformant framebuffer tags ended the process ({:?}); last completed case: `{last}`", out.status));
+    }
+    let mut n = 0u64;
+    for line in text.lines() {
+        let Some((case, got)) = line.split_once(" -> ") else { continue };
+        let f: Vec<&str> = case.split(' ').collect();
+        if f.len() != 4 {
+            continue;
+        }
+        let (ty, colours): (u32, u32) = (f[0].parse().unwrap_or(999), f[1].parse().unwrap_or(0));
+        let want = match ty {
+            0 => format!("indexed:{colours}"),
+            1 => "rgb".to_string(),
+            2 => "text".to_string(),
+            x => format!("unknown:{x}"),
+        };
+        if got != want {
+            return Err(format!("built with panic=abort: framebuffer type byte {ty} with {colours} palette entries and {} slack bytes ({}) is classified as `{got}`, documented: `{want}`", f[2], f[3]));
+        }
+        n += 1;
+    }
+    if n < 1000 {
+        return Ok(Err(format!("panic=abort probe printed only {n} cases")));
+    }
+    Ok(Ok(n))
+}
+
 fn run(ctx: &Ctx, rep: &mut SubReport) {
     let fail = |rep: &mut SubReport, what: &str, v: u32, m: String| {
         rep.violations.push(Violation { sub: "conversions".into(), profile: profile_name().into(), message: m, case: json!({"what": what, "v": v}) });
@@ -408,6 +453,19 @@ fn run(ctx: &Ctx, rep: &mut SubReport) {
                 return;
             }
             _ => rep.inconclusive.push("elf-contexts: child did not report".into()),
+        }
+    }
+    if ctx.worker == 3 % ctx.workers && profile_name() == "release" {
+        match abort_probe() {
+            Ok(Ok(n)) => {
+                rep.evaluations += n;
+                rep.notes.push(format!("{n} classifications compared in the panic=abort build of the crates"));
+            }
+            Ok(Err(note)) => rep.notes.push(note),
+            Err(m) => {
+                fail(rep, "abort-probe", 0, m);
+                return;
+            }
         }
     }
     let full = ctx.tier == Tier::Thorough && profile_name() == "release";
@@ -521,6 +579,10 @@ fn replay(v: &Value) -> Result<(), String> {
         "elf" => elf_batches_in_child(x, 1, 4096).map_err(|e| e.1),
         "framebuffer" => mb2_model::panics::catch(framebuffer_all).unwrap_or_else(|| Err("panicked".into())),
         "elf-contexts" => mb2_model::panics::catch(elf_contexts).unwrap_or_else(|| Err("panicked".into())).map(|_| ()),
+        "abort-probe" => match abort_probe() {
+            Ok(_) => Ok(()),
+            Err(m) => Err(m),
+        },
         "framebuffer-mbi" => mb2_model::panics::catch(framebuffer_in_mbi).unwrap_or_else(|| Err("panicked".into())).map(|_| ()),
         _ => Ok(()),
     }
@@ -530,7 +592,7 @@ pub fn subs() -> Vec<Box<dyn Sub>> {
     vec![Box::new(LoopSub {
         name: "conversions",
         profiles: Profiles::Both,
-        rule: "for a 32-bit value v: u32->TagType->u32 identity, named iff v<=21 with the specification's names, Custom(v) otherwise; TagTypeId paths commute; == between u32/TagTypeId/TagType in all directions against v, v^1, v+1, 0, 21, 22 equals numeric equality; MemoryAreaType (1..=5 named) both directions and cross ==; ELF raw-type classification through crafted ELF64 tables of 4096 consecutive raw values (iterator yields exactly the in-use classes with the documented names), and in context: every raw type 0..=63 and around each class boundary x all 8 combinations of the low flag bits (high flag bits all set in every second header), every boundary raw type under each of 14 section names that linkers emit (resolvable through a valid string table), and for every in-use type k and every bit b the neighbouring headers (k ^ 2^b, k) in both orders and at both index parities; all 256 framebuffer type bytes on a stand-alone tag, and through the getter of a loaded boot information with 6 conventional framebuffer addresses (EGA text, VGA, PCI BARs) x 7 sets of other tags present (none, EFI system tables, EFI map + boot services, ...); both exported magics. Thorough/release: all 2^32 values (exhaustive); otherwise all v<2^16, 2^k+-16, class boundaries, 2^16 seeded samples, ELF batches at every class boundary + 200 sampled. Non-trivial = v > 21; distinct by v",
+        rule: "for a 32-bit value v: u32->TagType->u32 identity, named iff v<=21 with the specification's names, Custom(v) otherwise; TagTypeId paths commute; == between u32/TagTypeId/TagType in all directions against v, v^1, v+1, 0, 21, 22 equals numeric equality; MemoryAreaType (1..=5 named) both directions and cross ==; ELF raw-type classification through crafted ELF64 tables of 4096 consecutive raw values (iterator yields exactly the in-use classes with the documented names), and in context: every raw type 0..=63 and around each class boundary x all 8 combinations of the low flag bits (high flag bits all set in every second header), every boundary raw type under each of 14 section names that linkers emit (resolvable through a valid string table), and for every in-use type k and every bit b the neighbouring headers (k ^ 2^b, k) in both orders and at both index parities; all 256 framebuffer type bytes on a stand-alone tag, and through the getter of a loaded boot information with 6 conventional framebuffer addresses (EGA text, VGA, PCI BARs) x 7 sets of other tags present (none, EFI system tables, EFI map + boot services, ...); the same classification in a build of the crates with panic=abort (a probe binary that prints 1036 classifications - all type bytes, exact-fit and slack palettes, stand-alone and through the getter); both exported magics. Thorough/release: all 2^32 values (exhaustive); otherwise all v<2^16, 2^k+-16, class boundaries, 2^16 seeded samples, ELF batches at every class boundary + 200 sampled. Non-trivial = v > 21; distinct by v",
         run,
         replay,
     })]
